@@ -449,6 +449,7 @@ void World::setup_from_header() {
 	step_cap = (uint64_t)h.getd("step_cap", 200000);
 	const JV *af = h.get("allocfail"); if (af && af->t == JV::Arr) for (auto &x : af->a) g_arena.fail_at.insert((uint64_t)x.d);
 	shadow_enabled = mode == "exact" && h.getb("shadow", !g_arena.fail_at.empty() || h.has("allocfail_rel"));
+	startup_fail_at = (int)h.getd("startup_fail", 0);
 	const JV *sa = h.get("alloc_stack_at"); if (sa && sa->t == JV::Arr) for (auto &x : sa->a) g_arena.stack_at.insert((uint64_t)x.d);
 	if (debug && af && af->t == JV::Arr) for (auto &x : af->a) g_arena.stack_at.insert((uint64_t)x.d);
 	const JV *te = h.get("timerfd_errs"); if (te && te->t == JV::Arr) for (auto &x : te->a) g_kernel.timerfd_create_errs.push_back((int)x.d);
@@ -531,9 +532,9 @@ extern "C" int cjet_main(int argc, char **argv);
 			W->check_exit(); W->finish(rc); W->bail();
 		}
 		if (!W->started) {
-			if (g_arena.fail_at.empty() && g_kernel.timerfd_create_errs.empty()) W->violation("C07", "startup-failed", "daemon failed to start (exit " + std::to_string(rc) + ")");
+			if (g_arena.fail_at.empty() && g_kernel.timerfd_create_errs.empty() && W->startup_fail_at == 0) W->violation("C07", "startup-failed", "daemon failed to start (exit " + std::to_string(rc) + ")");
 			// start-up under an injected fault: a clean non-zero exit is the required outcome
-			if (rc == 0) W->violation("C15", "startup-failure-ignored", "main() returned success although start-up could not complete");
+			if (rc == 0) W->violation(W->startup_fail_at ? "C07" : "C15", "startup-failure-ignored", "main() returned success although start-up could not complete");
 			W->probe("startup_failed_cleanly");
 			W->check_exit(); W->finish(rc); W->bail();
 		}
